@@ -155,6 +155,8 @@ def predict_gate(family, kind, fitted, ignore: Bool):
         m.is_fitted = True
     if fitted == "no":
         m.is_fitted = False
+    if fitted == "unset" and family == "hourly":
+        m.is_fitted = False         # the hourly constructor always sets the flag (the daily / billing ones leave it unset until fit)
     n_dq = length(m.disqualification)
     tz_same = str(m.baseline_timezone) == str(data.tz)
     if family == "billing":
